@@ -472,13 +472,15 @@ impl PublishBuilder {
 
         let rx =
             shared.wait_publish_response(idx, AckType::Receive, self.packet, Some(payload));
-        // releases the packet if this future is dropped after PUBREC has been received
-        let mut received = PublishReceived::new(
-            codec::PublishAck { packet_id: idx, ..Default::default() },
-            shared,
-        );
+        // releases the packet if this future is dropped after PUBREC has been received,
+        // packet that has not been sent must not release other packet with the same id
+        let result = rx.map(|rx| {
+            let ack = codec::PublishAck { packet_id: idx, ..Default::default() };
+            (rx, PublishReceived::new(ack, shared))
+        });
         async move {
-            rx?.await
+            let (rx, mut received) = result?;
+            rx.await
                 .map(move |ack| {
                     received.ack = ack.receive();
                     received
